@@ -146,7 +146,9 @@ def _resolve(rtype, st):
     if c == "int":
         return st["v"], None, {}, c
     if c == "int-out-of-range":
-        return None
+        # an int that is not a 16-bit value cannot be "the status the handler supplied" (it cannot be encoded as US), so it
+        # falls under "otherwise the documented failure code"; which code is not documented: any Failure-class status
+        return (None, "Failure", {}, c) if rtype != "C-ECHO" else None
     if c in ("ds-status", "ds-status+optional", "ds-status+command-element"):
         extra = {k: v for k, v in (st.get("extra") or {}).items() if k in OPTIONAL.get(rtype, ())}
         return st["status"], None, extra, c
